@@ -263,10 +263,11 @@ def now():
     return time.time()
 
 
-def write_json(path, obj):
+def write_json(path, obj, sort_keys=True):
+    """replay files are written with sort_keys=False: the order of the parameters of an IR is part of the input"""
     os.makedirs(os.path.dirname(path), exist_ok=True)
     tmp = path + ".tmp.%d" % os.getpid()
     with open(tmp, "w") as f:
-        json.dump(obj, f, indent=1, sort_keys=True, default=str)
+        json.dump(obj, f, indent=1, sort_keys=sort_keys, default=str)
         f.write("\n")
     os.replace(tmp, path)
